@@ -34,7 +34,7 @@ QUOTA = {'quick': 25, 'thorough': 500}
 REQUIRED = {'quick': {'evaluations': 15000, 'scripts_scanned': 15000, 'scripts_with_quoted_embed': 3000,
                       'scripts_with_comment_embed': 3000, 'repeated_expression_scripts': 500, 'runs': 300,
                       'level_identity_checks': 150, 'pragma_vs_argument_checks': 60, 'metadata_only_checks': 300,
-                      'first_subset_empty_messages': 4},
+                      'first_subset_empty_messages': 4, 'cli_script_runs': 40},
             'thorough': {'evaluations': 250000, 'scripts_scanned': 250000, 'scripts_with_quoted_embed': 50000,
                          'scripts_with_comment_embed': 50000, 'repeated_expression_scripts': 10000, 'runs': 8000,
                          'level_identity_checks': 3000, 'pragma_vs_argument_checks': 1000, 'metadata_only_checks': 8000}}
@@ -266,6 +266,42 @@ def run_checks(ctx, msg, exprs_pool, origin):
                         dict(script=body, origin=origin), exc=e)
 
 
+def cli_levels(ctx, b, exprs, scratch, tag):
+    """`pybufrkit script -n LEVEL` prints what ScriptRunner(level) binds (levels 0/1/2/4 by argument, default, pragma)"""
+    from mon.cli import run_cli
+    from pybufrkit.script import ScriptRunner
+    from pybufrkit.decoder import Decoder
+    path = os.path.join(scratch, 'msg_%s.bufr' % tag)
+    with open(path, 'wb') as f:
+        f.write(b)
+    m = Decoder().process(b, file_path=path)
+    for e in exprs:
+        script = 'print(repr(${%s}))' % e
+        want = {}
+        for lvl in (0, 1, 2, 4):
+            try:
+                want[lvl] = repr(ScriptRunner('v = ${%s}' % e, data_values_nest_level=lvl).run(m)['v'])
+            except Exception:
+                want = None
+                break
+        if want is None:
+            continue
+        runs = [(['-n', str(lvl)], script, want[lvl], 'arg%d' % lvl) for lvl in (0, 1, 2, 4)]
+        runs.append(([], script, want[1], 'default'))
+        runs.append(([], '#$ data_values_nest_level = 2\n' + script, want[2], 'pragma2'))
+        runs.append((['-n', '0'], '#$ data_values_nest_level = 4\n' + script, want[0], 'arg0-over-pragma4'))
+        for flags, sc, exp, how in runs:
+            ctx.count('cli_script_runs')
+            ctx.evaluated(('cli', tag, e, how), True)
+            so, se, exc, code = run_cli(['script'] + flags + [sc, path])
+            if exc is not None or se.strip():
+                ctx.violate('cli-script-fails/%s' % how, 'pybufrkit script %s failed: %r %s' % (flags, exc, se[:100]), dict(script=sc, expr=e))
+                continue
+            if so.strip() != exp:
+                ctx.violate('cli-script-level/%s' % how, 'pybufrkit script %s %r printed %s, ScriptRunner at that level binds %s'
+                            % (' '.join(flags), sc, so.strip()[:80], exp[:80]), dict(script=sc, expr=e, how=how))
+
+
 def expr_pool(msg):
     """data and metadata expressions that exist for the message"""
     from pybufrkit.renderer import NestedJsonRenderer
@@ -351,6 +387,15 @@ def run(ctx):
             continue
         ctx.count('corpus_messages')
         run_checks(ctx, m, pool, 'corpus:' + os.path.basename(f))
+        if i % 4 == 0:
+            scratch = os.path.join(os.environ.get('VERIF_SCRATCH', '/verif/.scratch'), 'c18-%d' % ctx.shard)
+            os.makedirs(scratch, exist_ok=True)
+            try:
+                data_exprs = [e for e in pool if not e.startswith('%')][:2] + ['%n_subsets']
+                cli_levels(ctx, open(f, 'rb').read(), data_exprs, scratch, 'f%d' % i)
+            finally:
+                import shutil
+                shutil.rmtree(scratch, ignore_errors=True)
     # multi-subset uncompressed messages whose FIRST subset has empty delayed replications
     from mon.gen.shapes import EdgePolicy
 
